@@ -388,6 +388,13 @@ func (e *c19Env) unaryHook(ctx context.Context, ph zzsimetcd.Phase, method strin
 		// (the scheduler's canonical order) are assigned at the first gate and
 		// must not depend on the order in which same-instant timers fire
 		r.Yield("etcd.rpc")
+		if r.Aborted() {
+			// the step budget is used up and gates no longer park anybody: make
+			// every RPC cost virtual time so that a caller spinning in zero
+			// time cannot keep the clock (and the harness' wind-down) from advancing
+			time.Sleep(10 * time.Millisecond)
+			return nil
+		}
 		r.Eventf("rpc %s arrives", method)
 		slept := false
 		if e.sc.LatencyUs > 0 {
@@ -1013,7 +1020,13 @@ func c19Exec(r *sim.Run, sci interface{}) {
 		rounds, restarts := 0, 0
 		for {
 			rev0 := env.store.Rev()
-			r.Sleep(quiet)
+			for left := quiet; left > 0 && !r.Aborted(); left -= 500 * time.Millisecond {
+				d := left
+				if d > 500*time.Millisecond {
+					d = 500 * time.Millisecond
+				}
+				r.Sleep(d)
+			}
 			if r.Aborted() || r.Violated() {
 				break
 			}
@@ -1277,7 +1290,7 @@ func TestC19DebugDeterminism(t *testing.T) {
 		b, _ := json.Marshal(sc0)
 		sc := &c19Scenario{}
 		json.Unmarshal(b, sc)
-		res := sim.Execute(t, sim.Options{Seed: sim.Mix(seed, 2), TraceSteps: true, KeepLog: 200000, MaxSteps: 100000}, func(r *sim.Run) { c19Exec(r, sc) })
+		res := sim.Execute(t, sim.Options{Seed: sim.Mix(seed, 2), TraceSteps: true, KeepLog: 200000, MaxSteps: c19DebugMaxSteps()}, func(r *sim.Run) { c19Exec(r, sc) })
 		os.WriteFile(fmt.Sprintf("/tmp/c19-trace-%d.txt", i), []byte(strings.Join(res.Log, "\n")), 0o644)
 		if i == 0 {
 			first = res.Hash
@@ -1287,4 +1300,11 @@ func TestC19DebugDeterminism(t *testing.T) {
 			runtime.GC()
 		}
 	}
+}
+
+func c19DebugMaxSteps() int {
+	if v, err := strconv.Atoi(os.Getenv("C19_DEBUG_MAXSTEPS")); err == nil && v > 0 {
+		return v
+	}
+	return 100000
 }
